@@ -198,6 +198,15 @@ type c07Sc struct {
 	Pad      string `json:"pad,omitempty"` // uri | value | many
 	Expect   bool   `json:"expect,omitempty"`  // server: the request carries Expect: 100-continue (body read by ContinueReadBody)
 	PerReq   bool   `json:"per_req,omitempty"` // server: L is set per request through Server.HeaderReceived, the server-wide limit is 64 MiB
+	Hist     []c07Req `json:"hist,omitempty"`  // server-history: the requests sent on ONE keep-alive connection
+}
+
+// c07Req is one request of a connection history: Ov is the per-request limit HeaderReceived returns for it (0 = no
+// override, the server limit L applies), Size the body size, Kind cl | chunked.
+type c07Req struct {
+	Ov   int    `json:"ov"`
+	Size int    `json:"size"`
+	Kind string `json:"kind"`
 }
 
 func (s c07Sc) String() string { b, _ := json.Marshal(s); return string(b) }
@@ -319,6 +328,8 @@ func c07Run(r *vrt.R, st *c07Stats, sc c07Sc) {
 		c07RunDirect(r, st, sc)
 	case "head":
 		c07RunHead(r, st, sc)
+	case "server-history":
+		c07RunHistory(r, st, sc)
 	case "decomp":
 		if sc.Codec == "br" {
 			brotliReaderPool = sync.Pool{}
@@ -527,6 +538,206 @@ func c07JudgeRead(r *vrt.R, st *c07Stats, sc c07Sc, who string, g *c07Gen, proof
 			}
 		}
 	}
+}
+
+// ---------------------------------------------------------------------------------------------------------------
+// connection histories: several requests on one keep-alive connection, each with its own (or no) per-request limit
+
+func c07OvName(ov, L int) string {
+	switch {
+	case ov == 0:
+		return "none"
+	case ov > L:
+		return "larger"
+	}
+	return "smaller"
+}
+
+func c07RunHistory(r *vrt.R, st *c07Stats, sc c07Sc) {
+	L := sc.L
+	g := &c07Gen{perRead: sc.PerRead}
+	type exp struct {
+		limit    int64
+		over     bool
+		proofOff int64 // absolute offset in the connection's input
+	}
+	var exps []exp
+	var off int64
+	for i, q := range sc.Hist {
+		limit := int64(L)
+		if q.Ov > 0 {
+			limit = int64(q.Ov)
+		}
+		head := "POST /r" + strconv.Itoa(i) + " HTTP/1.1\r\nHost: h\r\nX-Idx: " + strconv.Itoa(i) + "\r\n"
+		if q.Ov > 0 {
+			head += "X-Limit: " + strconv.Itoa(q.Ov) + "\r\n"
+		}
+		one := c07Sc{Kind: q.Kind, Total: int64(q.Size), Declared: int64(q.Size), CSize: 1500}
+		if one.CSize > one.Total {
+			one.CSize = one.Total
+		}
+		// raw length of this request: build it once on a scratch generator and drain it
+		tmp := &c07Gen{}
+		c07Body(tmp, head, one, limit)
+		n, _ := io.Copy(io.Discard, tmp)
+		po, _ := c07Body(g, head, one, limit)
+		e := exp{limit: limit, over: po >= 0}
+		if e.over {
+			e.proofOff = off + po
+		}
+		exps = append(exps, e)
+		off += n
+	}
+	g.cap = off + 64<<20
+	conn := &c07Conn{gen: g}
+	type call struct{ idx, n int }
+	var calls []call
+	intact := true
+	s := &Server{
+		Handler: func(ctx *RequestCtx) {
+			idx, _ := strconv.Atoi(string(ctx.Request.Header.Peek("X-Idx")))
+			b := ctx.Request.Body()
+			calls = append(calls, call{idx, len(b)})
+			if !c07AllX(b) {
+				intact = false
+			}
+			ctx.SetStatusCode(200)
+		},
+		HeaderReceived: func(h *RequestHeader) RequestConfig {
+			if v := h.Peek("X-Limit"); len(v) > 0 {
+				n, _ := strconv.Atoi(string(v))
+				return RequestConfig{MaxRequestBodySize: n}
+			}
+			return RequestConfig{}
+		},
+		MaxRequestBodySize: L,
+		ReadBufferSize:     sc.RBS,
+		Logger:             c07NopLogger{},
+		NoDefaultDate:      true,
+	}
+	s.ServeConn(conn)
+	codes, _ := c07Statuses(conn.out.Bytes())
+	what := func(msg string) string {
+		return fmt.Sprintf("%s: %s (handler calls (request index, body bytes) %v, statuses %v, pulled %d, closed %d)", sc, msg, calls, codes, g.pulled, conn.closed)
+	}
+	// the first request whose body exceeds the limit in force for it ends the connection
+	firstOver := -1
+	for i, e := range exps {
+		if e.over {
+			firstOver = i
+			break
+		}
+	}
+	prev := func(i int) string { // overrides seen on earlier requests of the connection, as a set
+		seen := map[string]bool{}
+		for _, q := range sc.Hist[:i] {
+			seen[c07OvName(q.Ov, L)] = true
+		}
+		var names []string
+		for _, n := range []string{"none", "larger", "smaller"} {
+			if seen[n] {
+				names = append(names, n)
+			}
+		}
+		if len(names) == 0 {
+			return "nothing"
+		}
+		return strings.Join(names, "+")
+	}
+	for _, c := range calls {
+		if c.idx < 0 || c.idx >= len(exps) {
+			r.ToolError("%s", what("handler saw an unknown request index"))
+		}
+		q := sc.Hist[c.idx]
+		if int64(c.n) > exps[c.idx].limit {
+			r.Violation(fmt.Sprintf("server-keepalive-%s-body-over-limit-dispatched:own-override-%s-after-%s", q.Kind, c07OvName(q.Ov, L), prev(c.idx)),
+				what(fmt.Sprintf("request %d was dispatched with a %d byte body; the limit in force for it is %d (its own override %d, server limit %d)", c.idx, c.n, exps[c.idx].limit, q.Ov, L)), sc)
+		}
+		if firstOver >= 0 && c.idx > firstOver {
+			r.Violation("server-keepalive-request-dispatched-after-over-limit-request", what(fmt.Sprintf("request %d was dispatched although request %d exceeded its limit", c.idx, firstOver)), sc)
+		}
+	}
+	if g.runaway {
+		r.Violation("server-keepalive-keeps-pulling-past-limit", what("the server pulled more than the whole history + 64 MiB"), sc)
+		return
+	}
+	// every request before the first over-limit one must have been served; if one was not, the rest of the history
+	// says nothing about limits (counted, not judged)
+	served := len(sc.Hist)
+	if firstOver >= 0 {
+		served = firstOver
+	}
+	for i := 0; i < served; i++ {
+		if i >= len(calls) || calls[i].idx != i || calls[i].n != sc.Hist[i].Size || i >= len(codes) || codes[i] != 200 || !intact {
+			st.add("history_within_limit_request_not_served", 1)
+			if r.WantSample() {
+				r.Sample(map[string]any{"note": "request within its limit not served intact", "detail": what("")})
+			}
+			return
+		}
+	}
+	st.add("history_requests_served_within_limit", int64(served))
+	if firstOver < 0 {
+		st.add("history_all_within_limit", 1)
+		return
+	}
+	st.add("history_over_limit_cases", 1)
+	q := sc.Hist[firstOver]
+	st.add("history_over_limit_own_"+c07OvName(q.Ov, L)+"_after_"+prev(firstOver), 1)
+	r.NontrivialHash(c07Hash([]byte(sc.String())))
+	tag := fmt.Sprintf("%s:own-override-%s-after-%s", q.Kind, c07OvName(q.Ov, L), prev(firstOver))
+	if len(codes) != served+1 || codes[served] < 400 {
+		r.Violation("server-keepalive-over-limit-no-error-response-"+tag, what(fmt.Sprintf("request %d exceeds its limit %d: expected %d responses, the last one an error", firstOver, exps[firstOver].limit, served+1)), sc)
+	}
+	if conn.closed == 0 || conn.readsAfterWrite > 0 {
+		r.Violation("server-keepalive-over-limit-not-closed-"+tag, what("connection not closed (or read again) after the error response"), sc)
+	}
+	if b := exps[firstOver].proofOff + c07rbs(sc.RBS) + 32; g.pulled > b {
+		r.Violation("server-keepalive-pulled-past-limit-"+tag, what(fmt.Sprintf("pulled %d bytes, bound %d (= offset %d where request %d proves the excess + read buffer)", g.pulled, b, exps[firstOver].proofOff, firstOver)), sc)
+	}
+}
+
+func c07Hash(s []byte) uint64 { // FNV-1a (own copy: C07 must build without C08's file)
+	h := uint64(14695981039346656037)
+	for i := 0; i < len(s); i++ {
+		h ^= uint64(s[i])
+		h *= 1099511628211
+	}
+	return h
+}
+
+// c07Histories: all histories of <= depth requests in which every request but the last is within the limit in force
+// for it (an over-limit request ends the connection, so longer continuations add nothing).
+func c07Histories(L, depth int) [][]c07Req {
+	lo, hi := L/4, 4*L
+	var opts []c07Req
+	for _, ov := range []int{0, hi, lo} {
+		for _, size := range []int{lo, lo + 1, L, L + 1, hi, hi + 1} {
+			for _, kind := range []string{"cl", "chunked"} {
+				opts = append(opts, c07Req{ov, size, kind})
+			}
+		}
+	}
+	within := func(q c07Req) bool {
+		lim := L
+		if q.Ov > 0 {
+			lim = q.Ov
+		}
+		return q.Size <= lim
+	}
+	var out [][]c07Req
+	var rec func(pre []c07Req)
+	rec = func(pre []c07Req) {
+		for _, o := range opts {
+			h := append(append([]c07Req{}, pre...), o)
+			out = append(out, h)
+			if len(h) < depth && within(o) {
+				rec(h)
+			}
+		}
+	}
+	rec(nil)
+	return out
 }
 
 // ---------------------------------------------------------------------------------------------------------------
@@ -1025,6 +1236,12 @@ func c07Scenarios(r *vrt.R) []c07Sc {
 		bodyShapes("client", L, true)
 	}
 	rbss, perReads = save1, save2
+	// connection histories with per-request limits (HeaderReceived): server limit L, overrides 4L and L/4
+	for _, L := range vrt.Pick(r, []int{4096}, []int{100, 4096, 65536}) {
+		for _, h := range c07Histories(L, 3) {
+			out = append(out, c07Sc{Mode: "server-history", L: L, Hist: h})
+		}
+	}
 	// heads
 	for _, rbs := range []int{16, 128, 512, 4096, 0} {
 		e := int(c07rbs(rbs))
@@ -1092,6 +1309,8 @@ func TestVerif_C07(t *testing.T) {
 		"chunked with chunk size 1/L/L+1/4096 and total L-1/L/L+1/L+5000/endless, identity-until-close L-1/L/L+1/L+5000/endless (responses); all streams come from a lazy generator that counts pulled bytes. " +
 		"Oracle: nothing larger than L is returned or dispatched; over-limit => ErrBodyTooLarge (client, readers) or exactly one status>=400 response, close and no further read (server); " +
 		"pulled bytes <= offset where the stream proves the excess + ReadBufferSize + 32 (+1 KiB initial buffer for identity bodies). " +
+		"Connection histories: every sequence of <= 3 requests on one keep-alive connection over {no per-request limit, HeaderReceived override 4L, override L/4} x body size {L/4, L/4+1, L, L+1, 4L, 4L+1} x {Content-Length, chunked} "+
+		"in which only the last request may exceed its limit: each request is bounded by the limit in force for IT (its own override, else the server limit), an over-limit request gets an error response + close and nothing after it is dispatched. "+
 		"Request heads of ReadBufferSize-1/+0/+1/x2/x10 bytes (padding in URI / one value / many lines; delivered whole, 1 or 7 bytes per read) => 431 + close when larger than the buffer, and no more than one buffer pulled. " +
 		"Body*WithLimit helpers on gzip/deflate/br/zstd payloads of L-1/L/L+1/2L+3/10 MiB zero bytes (ratio >= 1000) and MultipartFormWithLimit on plain/gzip/streamed forms of L-1/L/L+1/L+1000/10-20 MiB: never more than L bytes returned, ErrBodyTooLarge above L. " +
 		"Non-trivial: scenarios whose stream exceeds the limit or sits exactly at it.")
@@ -1157,7 +1376,8 @@ func TestVerif_C07(t *testing.T) {
 	// vacuity guard: every mode must have accepted within-limit streams and rejected over-limit ones
 	for _, k := range []string{"server_within_limit_accepted", "server_over_limit_cases", "hostclient_within_limit_accepted", "client_within_limit_accepted",
 		"Response.ReadLimitBody_within_limit_accepted", "Request.ReadLimitBody_within_limit_accepted", "head_within_buffer_accepted", "head_over_buffer_cases",
-		"decomp_within_limit_returned_intact", "decomp_bomb_cases", "multipart_within_limit_returned_intact", "multipart_over_limit_cases"} {
+		"decomp_within_limit_returned_intact", "decomp_bomb_cases", "multipart_within_limit_returned_intact", "multipart_over_limit_cases",
+		"history_over_limit_cases", "history_all_within_limit", "history_over_limit_own_none_after_larger"} {
 		if st.m[k] == 0 && !r.Expired() {
 			st.mu.Unlock()
 			r.ToolError("vacuous run: counter %s is 0 (the generated streams are not what the harness thinks they are)", k)
